@@ -3947,6 +3947,9 @@ impl Handler {
             .sessions
             .with_session(session_id, |session| session.rule_texts().to_vec())?;
 
+        #[cfg(feature = "verif-hooks")]
+        crate::verif_hooks::point("handler.session_query.state_read");
+
         // Apply same preprocessing as the fast path: strip comments + transform ?shorthand
         let preprocessed = strip_comments(&program);
         let transform = transform_query_shorthand(&preprocessed)?;
@@ -3980,6 +3983,8 @@ impl Handler {
             let snap = storage.get_snapshot_for(&kg).map_err(|e| e.to_string())?;
             (snap, names)
         }; // storage read lock released here
+        #[cfg(feature = "verif-hooks")]
+        crate::verif_hooks::point("handler.session_query.snapshot_taken");
 
         // Acquire semaphore permit to bound concurrent DD computations (same as query_program)
         let permit = Arc::clone(&self.query_semaphore)
